@@ -88,6 +88,12 @@ func (e *CEnv) eval(x Expr) Val {
 	case *EInt:
 		b, _ := new(big.Int).SetString(n.V, 10)
 		return Val{T: untypedInt, Tm: c.BigLit(b)}
+	case *EReal:
+		r, ok := new(big.Rat).SetString(n.V)
+		if !ok {
+			e.fail("bad decimal literal %s", n.V)
+		}
+		return Val{T: types.Typ[types.Float64], Tm: c.RealLit(r)}
 	case *EBool:
 		return Val{T: tBool, Tm: c.BoolLit(n.V)}
 	case *EStr:
